@@ -62,8 +62,8 @@ def gen_sched_case(rng, quick):
             if rng.random() < (0.9 if s == "o" else 0.6):
                 cls = rng.choices(["tiny", "small", "mid", "tailbuf", "burst"], [32, 32, 20, 8, 8])[0]
                 payload, _ = relay.gen_stream(rng, cls, targets)
-                if cls == "burst" and payload.count(b"\n") > 320:
-                    payload = b"\n".join(payload.split(b"\n")[:320]) + b"\n"   # every line is a scheduling point
+                if cls == "burst" and payload.count(b"\n") > 220:
+                    payload = b"\n".join(payload.split(b"\n")[:220]) + b"\n"   # every line is a scheduling point
                 if rng.random() < 0.25:
                     # a line of 2048 bytes or more (err.c's LINEBUFSIZE), so that a label and its long line
                     # written apart can be told from one call
@@ -95,7 +95,20 @@ def gen_sched_case(rng, quick):
          "tickrate": 60 if any(at for h in hosts for k in ("out", "err") for at, _ in h.get(k, [])) else 0}
     if strat == "pct":
         c["pct"] = [rng.randrange(2, 6), 40 + 14 * nitems]
-    meta = {"targets": targets, "labels": labels, "K": optK, "streams": streams, "strategy": strat}
+    meta = {"targets": targets, "labels": labels, "K": optK, "streams": streams, "strategy": strat, "abandoned": []}
+    if rng.random() < 0.12:
+        # a host that is given up on: command timeout 1 s (virtual), one host's streams deliver their data and then
+        # hang for ever (`-1 EOF`); its worker leaves the poll loop on the watchdog's signal and flushes what it
+        # has read: all of it, the unterminated tail included (C05.abandoned_stream_relays_what_was_read)
+        for h in hosts:
+            for key in ("out", "err"):
+                h[key] = [[0, d] for _, d in h.get(key, [])]
+        i = rng.randrange(n)
+        for key in ("out", "err"):
+            hosts[i][key] = hosts[i].get(key, []) + [[-1, "EOF"]]
+        c["opts"]["ut"] = 1
+        c["tickrate"] = 0
+        meta["abandoned"] = [i]
     return c, meta
 
 
@@ -214,6 +227,9 @@ def judge(ctx, prop, runs, cov, dist):
         stray = None
         for th, fno, b in log:
             key = (widx.get(th), "o" if fno == "1" else "e" if fno == "2" else "?")
+            if key[0] in meta.get("abandoned", ()) and fno == "2" and b.startswith(b"pdsh@"):
+                sd["abandoned_hosts"] = sd.get("abandoned_hosts", 0) + 1
+                continue            # dsh.c's own "command timeout" diagnostic about the host it gives up on
             if key in per:
                 per[key].append(b)
             elif stray is None:
@@ -269,6 +285,7 @@ def replay_form(case, meta, res):
     """the run as a deterministic replay: the schedule actually taken becomes an explicit choice list"""
     c = dict(case, strategy="list", choices=list(res.get("choices") or []), spurious=None)
     return {"kind": "sched-run", "sched_case": c, "targets": [t.decode() for t in meta["targets"]],
+            "abandoned": list(meta.get("abandoned", [])),
             "labels": int(meta["labels"]), "K": int(meta["K"]), "strategy": meta["strategy"],
             "streams": {"%d%s" % k: hexs(v) for k, v in meta["streams"].items()},
             "status": (res.get("M") or {}).get("status")}
@@ -277,7 +294,7 @@ def replay_form(case, meta, res):
 def meta_from_replay(obj):
     return {"targets": [t.encode() for t in obj["targets"]], "labels": bool(obj["labels"]), "K": bool(obj["K"]),
             "streams": {(int(k[:-1]), k[-1]): unhex(v) for k, v in obj["streams"].items()},
-            "strategy": "replay:" + obj.get("strategy", "?")}
+            "strategy": "replay:" + obj.get("strategy", "?"), "abandoned": obj.get("abandoned", [])}
 
 
 # ----------------------------------------------------------------------------- exhaustive (thorough)
@@ -316,7 +333,7 @@ def run_sched(ctx, prop, cov, dist, exe=None):
     if not exe:
         return
     quick = ctx.quick()
-    n = 260 if quick else 5000
+    n = 200 if quick else 5000
     specs = [gen_sched_case(rng, quick) for _ in range(n)]
 
     def one(spec):
